@@ -86,6 +86,15 @@ func (f *Fixture) MkTx(st *state.StateDB, number *big.Int, op string) (*types.Tr
 			amt = new(big.Int).Sub(cur.SelfToken, Unit(0, 500000000000000000))
 		}
 		return stk(v.Operator, staking.ValidatorWithDraw, &staking.TxValidatorWithdraw{MainAddress: v.Main, Recipient: v.Operator.Addr, Value: amt, Nonce: st.GetNonce(v.Operator.Addr)})
+	case "vwithdrawthin": // leave a self stake between MinSelfStakes and MinStakes: the validator stays online only thanks to its delegations
+		v := val()
+		cur := st.GetValidatorByMainAddr(v.Main)
+		amt := Unit(1, 0)
+		keep := Unit(3, 200000000000000000)
+		if cur != nil && cur.SelfToken.Cmp(keep) > 0 {
+			amt = new(big.Int).Sub(cur.SelfToken, keep)
+		}
+		return stk(v.Operator, staking.ValidatorWithDraw, &staking.TxValidatorWithdraw{MainAddress: v.Main, Recipient: v.Operator.Addr, Value: amt, Nonce: st.GetNonce(v.Operator.Addr)})
 	case "vwithdrawmuch":
 		v := val()
 		return stk(v.Operator, staking.ValidatorWithDraw, &staking.TxValidatorWithdraw{MainAddress: v.Main, Recipient: v.Operator.Addr, Value: Unit(5000, 0), Nonce: st.GetNonce(v.Operator.Addr)})
